@@ -38,10 +38,56 @@ REACTIONS = {
     "jpsi_kp_pim_pip_km_two_cascades": dict(initial_state=("J/psi(1S)", [-1, 0, +1]), final_state=["K+", "pi-", "pi+", "K-"],
                                             allowed_intermediate_particles=["K(1)(1270)+", "b(1)(1235)-", "K*(892)0"],
                                             allowed_interaction_types=["strong"]),
+    # axis-angle territory with INTEGER spins: massive spin-1 omega below b1 in (01)2, direct child in (02)1
+    "jpsi_pip_omega_pim": dict(initial_state=("J/psi(1S)", [-1, 0, +1]), final_state=["pi+", "omega(782)", "pi-"],
+                               allowed_intermediate_particles=["b(1)(1235)+", "f(2)(1270)"],
+                               allowed_interaction_types=["strong"]),
     # spin-0 initial state, spin-1/2 final states, topologies (01)2 and (02)1
     "etac_pi0_p_pbar": dict(initial_state=("eta(c)(1S)", [0]), final_state=["pi0", "p", "p~"],
                             allowed_intermediate_particles=["N(1440)"]),
 }
+
+
+def synthetic_heavy_parent():
+    """A(J=1, 20 GeV) -> a(0, 0.14) b(1, 0.05) c(0, 0.05) with R1(J=1, 1 GeV) -> a b [(01)2] and
+    S1(J=0, 1.1 GeV) -> a c [(02)1]: hand-built particles, every spin projection, helicity
+    conservation only. Light, fast resonance and daughter: Wigner rotations beyond 90 degrees occur."""
+    import itertools
+
+    from qrules.particle import Particle
+    from qrules.quantum_numbers import InteractionProperties
+    from qrules.topology import FrozenTransition, create_isobar_topologies
+    from qrules.transition import ReactionInfo, State
+
+    def particle(name, spin, mass, pid):
+        return Particle(name=name, pid=pid, spin=spin, mass=mass, width=0.1 * mass)
+
+    def spin_range(s):
+        return [-s + i for i in range(int(round(2 * s)) + 1)]
+
+    def topology(pair, spectator):
+        base = create_isobar_topologies(3)[0]  # 0 spectator, edge 3 -> 1, 2
+        return base.relabel_edges({0: spectator, 1: pair[0], 2: pair[1]})
+
+    A = particle("A", 1, 20.0, 9001)
+    finals = [particle("a", 0, 0.14, 9002), particle("b", 1, 0.05, 9003), particle("c", 0, 0.05, 9004)]
+    chains = [(topology((0, 1), 2), particle("R1", 1, 1.0, 9005)), (topology((0, 2), 1), particle("S1", 0, 1.1, 9007))]
+    transitions = []
+    for top, res in chains:
+        pools = [spin_range(A.spin), *[spin_range(p.spin) for p in finals], spin_range(res.spin)]
+        for combo in itertools.product(*pools):
+            states = {-1: State(A, float(combo[0])), 3: State(res, float(combo[4]))}
+            for i, p in enumerate(finals):
+                states[i] = State(p, float(combo[1 + i]))
+            ok = True
+            for node in top.nodes:
+                (parent,) = top.get_edge_ids_ingoing_to_node(node)
+                c1, c2 = sorted(top.get_edge_ids_outgoing_from_node(node))
+                if abs(states[c1].spin_projection - states[c2].spin_projection) > states[parent].particle.spin:
+                    ok = False
+            if ok:
+                transitions.append(FrozenTransition(top, states, {n: InteractionProperties() for n in top.nodes}))
+    return ReactionInfo(transitions, formalism="helicity")
 
 
 def main():
@@ -60,6 +106,10 @@ def main():
         inter = sorted({s.particle.name for t in r.transitions for i, s in t.states.items()
                         if i in t.topology.intermediate_edge_ids})
         print(name, len(r.transitions), "transitions", len(tops), "topologies", inter, flush=True)
+    if not only or "synthetic_heavy_parent" in only:
+        r = synthetic_heavy_parent()
+        qrules.io.write(r, str(out / "synthetic_heavy_parent.json"))
+        print("synthetic_heavy_parent", len(r.transitions), "transitions", flush=True)
 
 
 if __name__ == "__main__":
